@@ -1,7 +1,7 @@
-\* thorough tier: the clauses on every history of three steps (call, the caller's own action, probe) over all heaps
+\* thorough tier: the clauses on every history of three steps (call, the caller's own action, probe)
 CONSTANTS MaxSteps = 3
           FreeSteps = 1
-          Scope = "thorough"
+          Scope = "quick"
           Caller = TRUE
           Extend = FALSE
 INIT Init
